@@ -174,6 +174,18 @@ CHECKS = {
         note="PARTIAL: textwrap.wrap, str.splitlines and the YAML reading of double-quoted scalars are library contracts (checked on every generated paragraph).",
         technique="Lean 4 proof (line-structure invariant, for all wrap/splitlines meeting their contracts) + differential correspondence",
         design="§7 C17"),
+    'C18': dict(
+        text="Theorems on the mapping each tool's output denotes: upgrade_preserves - under the upgraded file every registered "
+             "policy is governed (C11 table) by exactly what governed it before, for all files/default sets within the "
+             "property's exclusions, incl. one deprecated name split into several (loop invariant over the registrations); "
+             "other names untouched, old names removed, the tool is total; convert_keeps_or_comments + "
+             "equal_to_default_is_default (print injectivity, C15) - commenting out / deleting a rule equal to its default "
+             "changes no decision; redundant_reports; generate_states_effective. Correspondence: the real upgrade_policy, "
+             "_convert_policy_json_to_yaml, _generate_policy, _list_redundant on generated files/default sets, decisions of "
+             "real enforcers on input vs output for every surviving name and role set; model outputs compared.",
+        note="PARTIAL: emitted text <-> mapping is the YAML/JSON parsers'; stevedore lookups replaced by the harness.",
+        technique="Lean 4 proof (loop invariant; reuse of the C11 table and C15 injectivity) + differential correspondence through the real tools",
+        design="§7 C18"),
     'C19': dict(
         text="Theorems: verdict_is_library_decision - for every store, name it can resolve, credentials and target, the value the "
              "tool obtains is exactly Enforcer.enforce's (do_raise off); derived_creds_mirror_invariant - the credentials the "
